@@ -121,6 +121,11 @@ def _relocate(program, modpath):
         out["named"] = [modpath + n[1:] for n in program["named"]]
     if program.get("schedule"):
         out["schedule"] = [t.replace("@m/", "@%s/" % modpath) for t in program["schedule"]]
+    if program.get("query"):
+        q = dict(program["query"])
+        q["pkg"] = modpath + q["pkg"][1:]
+        q["iface_pkg"] = modpath + q["iface_pkg"][1:]
+        out["query"] = q
     return out
 
 
